@@ -1595,6 +1595,11 @@ func (this *Reader) Read(block []byte) (int, error) {
 			var err error
 
 			if this.available, err = this.processBlock(); err != nil {
+				// Discard the partially decoded batch and stop decoding: after an
+				// error, no stale or out of order data must ever be returned.
+				this.available = 0
+				this.consumed = 0
+				atomic.StoreInt32(&this.blockID, _CANCEL_TASKS_ID)
 				return len(block) - remaining, err
 			}
 
